@@ -16,7 +16,10 @@ Inductive ckind :=
 | KUndecStale       (* same, but its record number is behind / inside the replay window: dropped before decoding *)
 | KWarnAlert        (* unprotected alert record, warning level, description other than close_notify, fresh number *)
 | KFatalAlert       (* unprotected alert record, level fatal, description other than close_notify, fresh number *)
-| KCloseNotify.     (* unprotected close_notify alert, fresh number *)
+| KCloseNotify      (* unprotected close_notify alert, fresh number *)
+| KClearApp         (* unprotected application_data record, fresh number *)
+| KClearCcs         (* unprotected change_cipher_spec record with the valid body 01, fresh number *)
+| KCcsEpoch.        (* change_cipher_spec-typed record claiming a protected epoch, any body, fresh number *)
 
 (* observation: (error surfaced: handshake abort or Read error, alert sent, connection closed, payload delivered) *)
 Definition cobs := (bool * bool * bool * bool)%type.
@@ -42,6 +45,9 @@ Definition dgram_of (k : ckind) : dgram :=
   | KWarnAlert => DRecs [RWire (mk0 21 9000 (CAlert 1 90))]
   | KFatalAlert => DRecs [RWire (mk0 21 9000 (CAlert 2 40))]
   | KCloseNotify => DRecs [RWire (mk0 21 9000 (CAlert 1 0))]
+  | KClearApp => DRecs [RWire (mk0 23 9000 (CApp [1; 2; 3]))]
+  | KClearCcs => DRecs [RWire (mk0 20 9000 CCCS)]
+  | KCcsEpoch => DRecs [RWire {| w_ctype := 20; w_epoch := 1; w_seq := 9000; w_cid := []; w_auth := None; w_clear := CCCS |}]
   end.
 
 (* the epoch-0 window after the handshake: record number 5000 committed, so number 1 is too old *)
